@@ -2,6 +2,8 @@ package main
 
 import (
 	"fmt"
+	"os"
+	"sort"
 	"go/token"
 	"go/types"
 	"math"
@@ -54,7 +56,21 @@ func (e *sched) step(st *sState, in ssa.Instruction) {
 		if p, ok := addr.(sPtr); ok {
 			if arr, ok := st.heap[p.id].(*hArray); ok && p.idx >= 0 && p.idx < len(arr.elems) {
 				arr.elems[p.idx] = v
+				if e.ghostArr != 0 && p.id == e.ghostArr {
+					e.ghostStore(st, p.idx, v, e.p.InstrPos(x))
+				}
 				return
+			}
+		}
+		// whole-array assignment: *dst = *src
+		if p, ok := addr.(sPtr); ok && p.idx == -1 {
+			if q, ok := v.(sPtr); ok && q.idx == -1 {
+				dst, ok1 := st.heap[p.id].(*hArray)
+				src, ok2 := st.heap[q.id].(*hArray)
+				if ok1 && ok2 && len(dst.elems) == len(src.elems) {
+					copy(dst.elems, src.elems)
+					return
+				}
 			}
 		}
 		e.fail("store through %T at %s", addr, e.p.InstrPos(x))
@@ -268,8 +284,26 @@ func (e *sched) step(st *sState, in ssa.Instruction) {
 		}
 	case *ssa.Index:
 		st.vals[x] = sOpaque{"index value"}
-	case *ssa.FieldAddr, *ssa.Field:
-		st.vals[x.(ssa.Value)] = sOpaque{"field"}
+	case *ssa.FieldAddr:
+		// struct objects are heap arrays with one cell per field; an array-typed field cell holds the pointer to the
+		// embedded array object, which is what its address denotes
+		if pp, ok := e.get(st, x.X).(sPtr); ok {
+			if obj, ok := st.heap[pp.id].(*hArray); ok && x.Field < len(obj.elems) && (pp.idx == -1 || pp.idx == 0) {
+				ft := x.Type().Underlying().(*types.Pointer).Elem()
+				if _, isArr := ft.Underlying().(*types.Array); isArr {
+					if ap, ok := obj.elems[x.Field].(sPtr); ok {
+						st.vals[x] = ap
+						return
+					}
+				} else {
+					st.vals[x] = sPtr{pp.id, x.Field}
+					return
+				}
+			}
+		}
+		st.vals[x] = sOpaque{"field"}
+	case *ssa.Field:
+		st.vals[x] = sOpaque{"field"}
 	case *ssa.MakeSlice:
 		st.vals[x] = sOpaque{"make"}
 	case *ssa.Extract:
@@ -489,7 +523,7 @@ func (e *sched) summary(st *sState, call *ssa.Call, cal *ssa.Function, args []sV
 			a := fmt.Sprintf("d:%s:%d", sb.name, i)
 			arr.elems[sl.lo+i] = symLin(map[string]*big.Rat{a: big.NewRat(1, 1)})
 		}
-		e.assume[fmt.Sprintf("utils.DecomposeNAF(out, %s, %d, %d) writes digits d_i, zero or odd, with sum d_i 2^i = the integer %s (recoding clause of C20, not decided statically)", sb.name, n.Int64(), w.Int64(), sb.name)] = true
+		e.assume[fmt.Sprintf("utils.DecomposeNAF(out, %s, %d, %d) writes digits d_i, zero or odd, with sum d_i 2^i = the integer %s (decided by C20 NAF-SUM / NAF-DIGIT)", sb.name, n.Int64(), w.Int64(), sb.name)] = true
 		return sNil{}, true
 	case "math.Pow":
 		a, ok1 := args[0].(sFloat)
@@ -503,6 +537,19 @@ func (e *sched) summary(st *sState, call *ssa.Call, cal *ssa.Function, args []sV
 		switch cal.Pkg.Pkg.Path() {
 		case "fmt", "errors":
 			return sOpaque{"error value"}, true
+		case "crypto/subtle":
+			switch cal.Name() {
+			case "ConstantTimeByteEq", "ConstantTimeEq":
+				a, ok1 := constOf(args[0])
+				b, ok2 := constOf(args[1])
+				if ok1 && ok2 {
+					if a.Cmp(b) == 0 {
+						return sInt{big.NewInt(1)}, true
+					}
+					return sInt{big.NewInt(0)}, true
+				}
+				return sOpaque{"comparison of symbolic values"}, true
+			}
 		}
 	}
 	return nil, false
@@ -586,7 +633,7 @@ func (e *sched) signSet(st *sState, s *sSym) (uint8, bool) {
 		for _, b := range s.bits {
 			switch {
 			case b == "":
-			case b == "1":
+			case b == "1" || st.ones[b]:
 				one = true
 			case !st.zeros[b]:
 				free = true
@@ -614,9 +661,77 @@ func (e *sched) signSet(st *sState, s *sSym) (uint8, bool) {
 	return 0, false
 }
 
+// oneBit: the value is a single bit (bit 0 symbolic or constant, all other bits zero)
+func oneBit(s *sSym) bool {
+	if s.bits == nil {
+		return false
+	}
+	for i, b := range s.bits {
+		if i > 0 && b != "" {
+			return false
+		}
+	}
+	return true
+}
+
+// normCond rewrites comparisons of a one-bit value with 1 into comparisons with 0
+func normCond(c sCond) sCond {
+	if c.c.Cmp(big.NewInt(1)) == 0 && oneBit(c.sym) {
+		switch c.op {
+		case token.EQL:
+			c.op, c.c = token.NEQ, big.NewInt(0)
+		case token.NEQ:
+			c.op, c.c = token.EQL, big.NewInt(0)
+		}
+	}
+	return c
+}
+
+// intervalDecision: decide a comparison of a bit-derived linear form with a constant by its range on this path
+func (e *sched) intervalDecision(st *sState, c sCond) (value, known, applicable bool) {
+	lo, hi, ok := st.rangeOf(c.sym)
+	if !ok {
+		return false, false, false
+	}
+	k := new(big.Rat).SetInt(c.c)
+	allT, allF := false, false
+	switch c.op {
+	case token.GEQ:
+		allT, allF = lo.Cmp(k) >= 0, hi.Cmp(k) < 0
+	case token.GTR:
+		allT, allF = lo.Cmp(k) > 0, hi.Cmp(k) <= 0
+	case token.LEQ:
+		allT, allF = hi.Cmp(k) <= 0, lo.Cmp(k) > 0
+	case token.LSS:
+		allT, allF = hi.Cmp(k) < 0, lo.Cmp(k) >= 0
+	case token.EQL:
+		allT, allF = lo.Cmp(k) == 0 && hi.Cmp(k) == 0, k.Cmp(lo) < 0 || k.Cmp(hi) > 0
+	case token.NEQ:
+		allF, allT = lo.Cmp(k) == 0 && hi.Cmp(k) == 0, k.Cmp(lo) < 0 || k.Cmp(hi) > 0
+	default:
+		return false, false, false
+	}
+	if allT {
+		return true, true, true
+	}
+	if allF {
+		return false, true, true
+	}
+	return false, false, true
+}
+
 func (e *sched) condKnown(st *sState, c sCond) (bool, bool) {
-	if c.len || c.c.Sign() != 0 && !(c.c.Cmp(big.NewInt(1)) == 0 && (c.op == token.LSS || c.op == token.GEQ)) {
+	c = normCond(c)
+	if c.len {
 		return false, false
+	}
+	if c.c.Sign() != 0 && !(c.c.Cmp(big.NewInt(1)) == 0 && (c.op == token.LSS || c.op == token.GEQ)) {
+		v, known, _ := e.intervalDecision(st, c)
+		return v, known
+	}
+	if _, ok := e.signSet(st, c.sym); !ok {
+		v, known, _ := e.intervalDecision(st, c)
+		return v, known
 	}
 	op := c.op
 	if c.c.Sign() != 0 { // v < 1  <=> v <= 0 ; v >= 1 <=> v > 0 (integers)
@@ -653,11 +768,40 @@ func (e *sched) condKnown(st *sState, c sCond) (bool, bool) {
 }
 
 // assume refines the state with the outcome of a symbolic condition; false = infeasible
-func (e *sched) assumeCond(st *sState, c *sCond, outcome bool) bool {
-	if c.len {
+func (e *sched) assumeCond(st *sState, c0 *sCond, outcome bool) bool {
+	if c0.len {
 		return true
 	}
+	cn := normCond(*c0)
+	c := &cn
 	op := c.op
+	if _, okSign := e.signSet(st, c.sym); !okSign || (c.c.Sign() != 0 && !(c.c.Cmp(big.NewInt(1)) == 0 && (op == token.LSS || op == token.GEQ))) {
+		// a comparison the sign domain cannot refine: both outcomes stay possible when the range straddles the constant
+		if _, _, applicable := e.intervalDecision(st, *c); applicable {
+			// remember the bound the branch establishes (integers: x < k is x <= k-1)
+			k := new(big.Rat).SetInt(c.c)
+			one := big.NewRat(1, 1)
+			opT := op
+			if !outcome {
+				opT = map[token.Token]token.Token{token.GEQ: token.LSS, token.LSS: token.GEQ, token.GTR: token.LEQ, token.LEQ: token.GTR, token.EQL: token.NEQ, token.NEQ: token.EQL}[op]
+			}
+			switch opT {
+			case token.GEQ:
+				st.learnBound(c.sym, k, nil)
+			case token.GTR:
+				st.learnBound(c.sym, new(big.Rat).Add(k, one), nil)
+			case token.LEQ:
+				st.learnBound(c.sym, nil, k)
+			case token.LSS:
+				st.learnBound(c.sym, nil, new(big.Rat).Sub(k, one))
+			case token.EQL:
+				st.learnBound(c.sym, k, k)
+			}
+			return true
+		}
+		e.fail("branch on a symbolic comparison the domain cannot interpret (%s %s)", op, c.c)
+		return true
+	}
 	if c.c.Sign() != 0 {
 		if c.c.Cmp(big.NewInt(1)) != 0 || (op != token.LSS && op != token.GEQ) {
 			e.fail("branch on a symbolic comparison with %s", c.c)
@@ -693,6 +837,9 @@ func (e *sched) assumeCond(st *sState, c *sCond, outcome bool) bool {
 					st.zeros[b] = true
 				}
 			}
+		}
+		if keep == 4 && oneBit(c.sym) && c.sym.bits[0] != "" && c.sym.bits[0] != "1" {
+			st.ones[c.sym.bits[0]] = true
 		}
 		return true
 	}
@@ -761,7 +908,7 @@ func (e *sched) execFrom(fr *sFrame, states []*sState, b, pred, stop *ssa.BasicB
 		case *ssa.Return:
 			for _, st := range states {
 				var vs []sVal
-				for _, rv := range x.Results {
+				for _, rv := range retVals(x) {
 					vs = append(vs, e.get(st, rv))
 				}
 				fr.rets = append(fr.rets, schedRet{st, vs})
@@ -841,7 +988,7 @@ func (e *sched) execFrom(fr *sFrame, states []*sState, b, pred, stop *ssa.BasicB
 			ipd := e.ipdom(fr.fn)[b]
 			rt := e.execFrom(fr, tS, b.Succs[0], b, ipd, false)
 			rf := e.execFrom(fr, fS, b.Succs[1], b, ipd, false)
-			all := e.merge(append(rt, rf...))
+			all := e.mergeAt(append(rt, rf...), fr.fn, ipd)
 			if ipd == nil || len(all) == 0 {
 				return nil
 			}
@@ -917,7 +1064,9 @@ func (e *sched) execCall(states []*sState, call *ssa.Call) []*sState {
 		}
 	}
 	fr := &sFrame{fn: cal}
+	e.frames = append(e.frames, cal)
 	e.execFrom(fr, states, cal.Blocks[0], nil, nil, false)
+	e.frames = e.frames[:len(e.frames)-1]
 	var out []*sState
 	for _, r := range fr.rets {
 		switch len(r.vals) {
@@ -930,7 +1079,7 @@ func (e *sched) execCall(states []*sState, call *ssa.Call) []*sState {
 		}
 		out = append(out, r.st)
 	}
-	return e.merge(out)
+	return e.mergeAt(out, nil, nil)
 }
 
 func (e *sched) builtin(st *sState, b *ssa.Builtin, call *ssa.Call) sVal {
@@ -962,6 +1111,18 @@ func (e *sched) builtin(st *sState, b *ssa.Builtin, call *ssa.Call) sVal {
 // ---------- merging ----------
 
 func sameConcrete(a, b sVal) (differ bool) {
+	if ta, ok := a.([]sVal); ok {
+		tb, ok := b.([]sVal)
+		if !ok || len(ta) != len(tb) {
+			return true
+		}
+		for i := range ta {
+			if sameConcrete(ta[i], tb[i]) || symbolicDiffer(ta[i], tb[i]) {
+				return true
+			}
+		}
+		return false
+	}
 	switch x := a.(type) {
 	case sBool:
 		if y, ok := b.(sBool); ok {
@@ -1038,32 +1199,146 @@ func (e *sched) mergeVal(s1, s2 *sState, a, b sVal) sVal {
 	return sOpaque{"joined value"}
 }
 
-func (e *sched) merge(states []*sState) []*sState {
+func (e *sched) merge(states []*sState) []*sState { return e.mergeAt(states, nil, nil) }
+
+// mergeAt joins states at block b of function fn: only values that are live there (and the values of the enclosing
+// frames) keep states apart; values of functions that are not being interpreted any more are ignored.
+func (e *sched) mergeAt(states []*sState, fn *ssa.Function, b *ssa.BasicBlock) []*sState {
+	var liveSet map[ssa.Value]bool
+	if fn != nil && b != nil {
+		liveSet = e.liveness(fn)[b]
+	}
+	active := map[*ssa.Function]bool{}
+	for _, f := range e.frames {
+		active[f] = true
+	}
+	relevant := func(v ssa.Value) bool {
+		var vf *ssa.Function
+		switch x := v.(type) {
+		case ssa.Instruction:
+			vf = x.Parent()
+		case *ssa.Parameter:
+			vf = x.Parent()
+		default:
+			return true
+		}
+		if fn != nil && vf == fn {
+			if liveSet == nil {
+				return true
+			}
+			if liveSet[v] {
+				return true
+			}
+			// phis of the join block were just evaluated: they are live by construction
+			if ph, ok := v.(*ssa.Phi); ok && ph.Block() == b {
+				return true
+			}
+			return false
+		}
+		if fn == nil {
+			return true
+		}
+		return active[vf]
+	}
+	e.dbgLabel = "call-return"
+	if b != nil {
+		e.dbgLabel = fmt.Sprintf("%s.%d", fn.Name(), b.Index)
+	}
+	// bucket by the live concrete values so that only candidates are compared pairwise
+	var keyVals []ssa.Value
+	if liveSet != nil {
+		for v := range liveSet {
+			keyVals = append(keyVals, v)
+		}
+		for _, in := range b.Instrs {
+			if ph, ok := in.(*ssa.Phi); ok {
+				keyVals = append(keyVals, ph)
+			} else {
+				break
+			}
+		}
+		sort.Slice(keyVals, func(i, j int) bool { return keyVals[i].Name() < keyVals[j].Name() })
+	}
+	bucketOf := func(s *sState) string {
+		if keyVals == nil {
+			return ""
+		}
+		var sb strings.Builder
+		for _, v := range keyVals {
+			switch x := s.vals[v].(type) {
+			case sInt:
+				sb.WriteString(x.v.String())
+			case sBool:
+				if x.b {
+					sb.WriteString("T")
+				} else {
+					sb.WriteString("F")
+				}
+			default:
+				sb.WriteString("?")
+			}
+			sb.WriteString(",")
+		}
+		return sb.String()
+	}
+	buckets := map[string][]*sState{}
 	var out []*sState
 	for _, s := range states {
 		merged := false
-		for _, t := range out {
-			if e.tryMerge(t, s) {
+		bk := bucketOf(s)
+		for _, t := range buckets[bk] {
+			if e.tryMerge(t, s, relevant) {
 				merged = true
 				break
 			}
 		}
 		if !merged {
 			out = append(out, s)
+			buckets[bk] = append(buckets[bk], s)
 		}
 	}
-	if len(out) > 16 {
-		e.fail("more than 16 abstract states after a join")
+	if os.Getenv("SCHED_DEBUG") == "2" && len(states) > 8 {
+		bi := -1
+		fnm := "call-return"
+		if b != nil {
+			bi, fnm = b.Index, fn.Name()
+		}
+		fmt.Fprintf(os.Stderr, "merge at %s block %d: %d -> %d\n", fnm, bi, len(states), len(out))
+	}
+	if len(out) > 1200 {
+		e.fail("more than 1200 abstract states after a join")
 	}
 	return out
 }
 
 // tryMerge merges s into t when no live concrete value separates them
-func (e *sched) tryMerge(t, s *sState) bool {
+func (e *sched) tryMerge(t, s *sState, relevant func(ssa.Value) bool) bool {
 	for k, a := range t.vals {
-		if b, ok := s.vals[k]; ok && sameConcrete(a, b) {
+		if b, ok := s.vals[k]; ok && relevant(k) && (sameConcrete(a, b) || symbolicDiffer(a, b)) {
+			if os.Getenv("SCHED_DEBUG") != "" && e.dbgN < 4000 {
+				e.dbgN++
+				fmt.Fprintf(os.Stderr, "no-merge[%s]: %s (%s) %v vs %v\n", e.dbgLabel, k.Name(), k.String(), a, b)
+			}
 			return false
 		}
+	}
+	// the observed digit sum
+	if e.ghostArr != 0 && !pfEqual(t.ghost, s.ghost) {
+		f, ok := reconcile(t, t.ghost, s, s.ghost)
+		if !ok {
+			f, ok = reconcile(s, s.ghost, t, t.ghost)
+		}
+		if !ok {
+			if os.Getenv("SCHED_DEBUG") != "" && e.dbgN < 4000 {
+				e.dbgN++
+				fmt.Fprintf(os.Stderr, "no-merge[%s] ghost: %s\n", e.dbgLabel, describeDiff(t.ghost, s.ghost))
+			}
+			return false // two histories with different digit sums stay apart (reported at the end if they are wrong)
+		}
+		t.ghost = f
+	}
+	if s.ghostNext > t.ghostNext {
+		t.ghostNext = s.ghostNext
 	}
 	// heap forms
 	newForms := map[int]pform{}
@@ -1129,6 +1404,29 @@ func (e *sched) tryMerge(t, s *sState) bool {
 			delete(t.zeros, k)
 		}
 	}
+	for k := range t.ones {
+		if !s.ones[k] {
+			delete(t.ones, k)
+		}
+	}
+	for k, b := range t.bnd {
+		b2, ok := s.bnd[k]
+		if !ok {
+			delete(t.bnd, k)
+			continue
+		}
+		if b[0] == nil || b2[0] == nil {
+			b[0] = nil
+		} else if b2[0].Cmp(b[0]) < 0 {
+			b[0] = b2[0]
+		}
+		if b[1] == nil || b2[1] == nil {
+			b[1] = nil
+		} else if b2[1].Cmp(b[1]) > 0 {
+			b[1] = b2[1]
+		}
+		t.bnd[k] = b
+	}
 	var nn []pform
 	for _, a := range t.nulls {
 		for _, b := range s.nulls {
@@ -1184,4 +1482,200 @@ func symEqual(a, b *sSym) bool {
 		}
 	}
 	return symEqual(a.pred, b.pred)
+}
+
+// ---------- liveness (SSA values live at block entry) ----------
+
+func (e *sched) liveness(fn *ssa.Function) map[*ssa.BasicBlock]map[ssa.Value]bool {
+	if e.live == nil {
+		e.live = map[*ssa.Function]map[*ssa.BasicBlock]map[ssa.Value]bool{}
+	}
+	if m, ok := e.live[fn]; ok {
+		return m
+	}
+	liveIn := map[*ssa.BasicBlock]map[ssa.Value]bool{}
+	liveOut := map[*ssa.BasicBlock]map[ssa.Value]bool{}
+	for _, b := range fn.Blocks {
+		liveIn[b] = map[ssa.Value]bool{}
+		liveOut[b] = map[ssa.Value]bool{}
+	}
+	isTracked := func(v ssa.Value) bool {
+		switch v.(type) {
+		case *ssa.Const, *ssa.Global, *ssa.Function, *ssa.Builtin:
+			return false
+		}
+		return v != nil
+	}
+	changed := true
+	for changed {
+		changed = false
+		for i := len(fn.Blocks) - 1; i >= 0; i-- {
+			b := fn.Blocks[i]
+			out := liveOut[b]
+			for _, s := range b.Succs {
+				for v := range liveIn[s] {
+					if ph, ok := v.(*ssa.Phi); ok && ph.Block() == s {
+						continue
+					}
+					if !out[v] {
+						out[v] = true
+						changed = true
+					}
+				}
+				// phi operands are live out of the corresponding predecessor
+				pi := -1
+				for k, p := range s.Preds {
+					if p == b {
+						pi = k
+					}
+				}
+				for _, in := range s.Instrs {
+					ph, ok := in.(*ssa.Phi)
+					if !ok {
+						break
+					}
+					if pi >= 0 && isTracked(ph.Edges[pi]) && !out[ph.Edges[pi]] {
+						out[ph.Edges[pi]] = true
+						changed = true
+					}
+				}
+			}
+			in := map[ssa.Value]bool{}
+			for v := range out {
+				in[v] = true
+			}
+			for k := len(b.Instrs) - 1; k >= 0; k-- {
+				ins := b.Instrs[k]
+				if v, ok := ins.(ssa.Value); ok {
+					delete(in, v)
+				}
+				if _, isPhi := ins.(*ssa.Phi); isPhi {
+					continue
+				}
+				for _, op := range ins.Operands(nil) {
+					if *op != nil && isTracked(*op) {
+						in[*op] = true
+					}
+				}
+			}
+			for v := range in {
+				if !liveIn[b][v] {
+					liveIn[b][v] = true
+					changed = true
+				}
+			}
+		}
+	}
+	e.live[fn] = liveIn
+	return liveIn
+}
+
+// ---------- observed digit array (signed-window recoding) ----------
+
+func (e *sched) ghostStore(st *sState, idx int, v sVal, pos string) {
+	e.digitStores++
+	var lin map[string]*big.Rat
+	switch x := v.(type) {
+	case sInt:
+		lin = map[string]*big.Rat{"": new(big.Rat).SetInt(x.v)}
+	case *sSym:
+		lin = x.lin
+	default:
+		e.fail("digit stored at %s is not an integer expression of the input bits", pos)
+		return
+	}
+	add := pform{}
+	for a, c := range lin {
+		if !c.IsInt() {
+			e.fail("digit stored at %s has a non-integral coefficient", pos)
+			return
+		}
+		add[pfKey(a, "")] = new(big.Int).Lsh(c.Num(), uint(idx))
+	}
+	if st.ghost == nil {
+		st.ghost = pform{}
+	}
+	st.ghost = pfAdd(st.ghost, add)
+	// digit rules: zero or odd, |d| < 2^w, at least w zeros after a non-zero digit
+	sym := symLin(lin)
+	lo, hi, ok := st.rangeOf(sym)
+	prob := func(format string, a ...interface{}) {
+		msg := fmt.Sprintf(format, a...)
+		for _, p := range e.digitProblems {
+			if p == msg {
+				return
+			}
+		}
+		if len(e.digitProblems) < 6 {
+			e.digitProblems = append(e.digitProblems, msg)
+		}
+	}
+	if !ok {
+		prob("digit at index %d (%s) is not a function of the input bits", idx, pos)
+		return
+	}
+	// parity: every atom with an odd coefficient must have a known value
+	par := new(big.Int)
+	known := true
+	for a, c := range lin {
+		if new(big.Int).Mod(c.Num(), big.NewInt(2)).Sign() == 0 {
+			continue
+		}
+		switch {
+		case a == "" || st.ones[a]:
+			par.Add(par, big.NewInt(1))
+		case st.zeros[a]:
+		default:
+			known = false
+		}
+	}
+	odd := known && new(big.Int).Mod(par, big.NewInt(2)).Sign() != 0
+	if odd && lo.IsInt() && hi.IsInt() {
+		// an odd value cannot sit on an even end of its interval
+		if new(big.Int).Mod(lo.Num(), big.NewInt(2)).Sign() == 0 {
+			lo = new(big.Rat).Add(lo, big.NewRat(1, 1))
+		}
+		if new(big.Int).Mod(hi.Num(), big.NewInt(2)).Sign() == 0 {
+			hi = new(big.Rat).Sub(hi, big.NewRat(1, 1))
+		}
+	}
+	lim := new(big.Rat).SetInt(pow2(uint(e.ghostW)))
+	if hi.Cmp(lim) >= 0 || lo.Cmp(new(big.Rat).Neg(lim)) <= 0 {
+		prob("digit stored at %s can lie in [%s,%s]; the window width %d allows only |d| < %d", pos, lo.RatString(), hi.RatString(), e.ghostW, 1<<uint(e.ghostW))
+	}
+	isZero := lo.Sign() == 0 && hi.Sign() == 0
+	if !isZero {
+		if !odd {
+			prob("digit stored at %s is not provably odd", pos)
+		}
+		if idx < st.ghostNext {
+			prob("non-zero digit stored at index %d (%s) although a non-zero digit may have been stored fewer than %d positions below", idx, pos, e.ghostW+1)
+		}
+		st.ghostNext = idx + e.ghostW + 1
+	}
+}
+
+// symbolicDiffer: two live symbolic values that are not the same expression keep their states apart
+func symbolicDiffer(a, b sVal) bool {
+	switch x := a.(type) {
+	case *sSym:
+		if y, ok := b.(*sSym); ok {
+			return !symEqual(x, y)
+		}
+		_, isInt := b.(sInt)
+		return isInt
+	case sInt:
+		_, isSym := b.(*sSym)
+		return isSym
+	case sCond:
+		if y, ok := b.(sCond); ok {
+			return !(symEqual(x.sym, y.sym) && x.op == y.op && x.c.Cmp(y.c) == 0 && x.len == y.len)
+		}
+		_, isB := b.(sBool)
+		return isB
+	case sBool:
+		_, isC := b.(sCond)
+		return isC
+	}
+	return false
 }
